@@ -506,3 +506,97 @@ Example stream_body_instance :
   stream_head true (B "abcdef") (Some (6, 7)) = None /\
   fst (h1_read_to_bytes (mkH1B (B "01234") (B "567") 8 3) 4) = B "3456".
 Proof. vm_compute. repeat split. Qed.
+
+(** ---- the END of an HTTP/1 connection ([handle_connection]: [break], then [http.shutdown()]) ---- *)
+(** The history model with the end of the connection in it ([pair_hist_end], what "proto.pair" / "proto.answered" /
+    "proto.server" run) IS [pair_hist] for the code as it is ([shutdown = true]: the loop is left by [break] and the
+    connection shut down, close_notify on TLS) — every history theorem above speaks about it — and, on a plain TCP
+    connection, whichever way the loop is left. *)
+Theorem connection_end_keeps_histories : forall checked ops alt e416 drain exs,
+  (forall p secure, pair_hist_end true checked ops alt e416 p drain secure exs = pair_hist checked ops alt e416 p drain secure exs) /\
+  (forall shutdown, pair_hist_end shutdown checked ops alt e416 H1 drain false exs = pair_hist checked ops alt e416 H1 drain false exs).
+Proof.
+  intros. split; [intros; apply pair_hist_end_shutdown | intros; apply pair_hist_end_plain].
+Qed.
+
+(** An answer whose body only the end of the connection delimits (no [content-length], not HEAD) is complete iff that end
+    is an orderly one: over TLS iff the connection was shut down (close_notify) — else the client cannot tell it from a
+    truncated body ([WBroken]).  Every other answer is complete whatever the end of the connection. *)
+Theorem close_delimited_complete_iff_close_notify : forall (m : N) (r : resp) (secure shutdown : bool),
+  (end_delimited m r = true ->
+     (receive_end m (h1_conn_end secure shutdown) (WClosed r) = WClosed r <-> (secure = false \/ shutdown = true)) /\
+     (receive_end m (h1_conn_end secure shutdown) (WClosed r) = WBroken <-> (secure = true /\ shutdown = false))) /\
+  (end_delimited m r = false -> receive_end m (h1_conn_end secure shutdown) (WClosed r) = WClosed r) /\
+  (forall (ce : conn_end) (w : wreply), (forall x, w <> WClosed x) -> receive_end m ce w = w).
+Proof. exact close_delimited_iff_close_notify_lemma. Qed.
+
+(** The variant that leaves the request loop by [return] instead of [break] (no [shutdown]): a streamed answer of unknown
+    length is complete on HTTP/2 and on plain HTTP/1, and not cleanly terminated on HTTP/1 over TLS. *)
+Theorem close_without_notify_refuted : exists checked ops alt e416 exs body,
+  Forall ex_ok exs /\ body <> [] /\
+  pair_hist_end false checked ops alt e416 H1 true true exs = [Some (Ok WBroken)] /\
+  pair_hist_end false checked ops alt e416 H1 true false exs
+    = [Some (Ok (WClosed (mkResp V11 200 [(B "content-type", B "text/plain"); (B "connection", B "close")] body)))] /\
+  pair_hist_end false checked ops alt e416 H2 true true exs = [Some (Ok (WResp (mkResp V2 200 [(B "content-type", B "text/plain")] body)))] /\
+  pair_hist_end true checked ops alt e416 H1 true true exs
+    = [Some (Ok (WClosed (mkResp V11 200 [(B "content-type", B "text/plain"); (B "connection", B "close")] body)))].
+Proof. exact close_without_notify_refuted_lemma. Qed.
+
+Example end_delimited_instance :
+  let r := mkResp V11 200 [(B "content-type", B "text/plain"); (B "connection", B "close")] (B "first second") in
+  end_delimited M_GET r = true /\ end_delimited M_HEAD r = false /\
+  end_delimited M_GET (mkResp V11 200 [(B "content-length", B "12"); (B "connection", B "close")] (B "first second")) = false /\
+  receive_end M_GET (h1_conn_end true false) (WClosed r) = WBroken /\
+  receive_end M_GET (h1_conn_end true true) (WClosed r) = WClosed r /\
+  receive_end M_HEAD (h1_conn_end true false) (WClosed r) = WClosed r.
+Proof. vm_compute. repeat split. Qed.
+
+(** ---- "requests both protocols can express": the request-head limits of the two front ends ---- *)
+(** Every request head the HTTP/1 front end accepts (at most 16384 bytes with request line, field lines and blank line) is
+    accepted by an HTTP/2 front end whose header-list limit (name + value + 32 per field, pseudo-headers included) is above
+    8 * 16384 — h2's default, which kvarn leaves in place, is 16 MiB — and has at most 4096 fields (h2's other limit:
+    24576): no request is answered by the HTTP/1 front end and refused (431) by the HTTP/2 front end. *)
+Theorem head_accepted_by_both :
+  8 * H1_MAX_HEAD < H2_MAX_HEADER_LIST /\
+  forall (limit : N) (authority m t : bytes) (h : headers),
+    8 * H1_MAX_HEAD < limit -> h1_head_ok authority m t h = true ->
+    h2_head_ok limit authority m t h = true /\ N.of_nat (length h) <= 4096.
+Proof. split; [exact default_header_list_limit_suffices | exact head_accepted_by_both_lemma]. Qed.
+
+(** ... and "the same 16 KiB as the HTTP/1 head" as the HTTP/2 header-list limit is NOT the same limit: a request with 450
+    small fields (a head of less than 5000 bytes on HTTP/1.1) is answered 200 over HTTP/1.1 and 431 over HTTP/2. *)
+Theorem small_header_list_limit_refuted : exists (authority m t : bytes) (h : headers),
+  h1_head_ok authority m t h = true /\ h1_head_len authority m t h < 5000 /\
+  h2_head_ok H1_MAX_HEAD authority m t h = false /\ h2_head_ok H2_MAX_HEADER_LIST authority m t h = true /\
+  run_head_gen H1_MAX_HEAD (XL [XL []; XL [XB m; XB t; x_headers h; XB []]]) = XL [XL [XN 200]; XL [XN 431]] /\
+  run_head (XL [XL []; XL [XB m; XB t; x_headers h; XB []]]) = XL [XL [XN 200]; XL [XN 200]].
+Proof. exact small_header_list_limit_refuted_lemma. Qed.
+
+Example head_limits_instance :
+  h1_head_len (B "localhost:8443") (B "GET") (B "/s") [(B "x-001", B "v")] = 51 /\
+  h2_list_size (B "localhost:8443") (B "GET") (B "/s") [(B "x-001", B "v")] = 219 /\
+  h1_head_ok (B "localhost:8443") (B "GET") (B "/s") [(B "x-001", repeat 118 (N.to_nat 16334))] = true /\
+  h1_head_ok (B "localhost:8443") (B "GET") (B "/s") [(B "x-001", repeat 118 (N.to_nat 16335))] = false.
+Proof. vm_compute. repeat split. Qed.
+
+(** ---- HTTP/2: streams the client has reset ([handle_connection]'s accept loop) ---- *)
+(** For every batch of streams — answered by the host's limiter or by tasks of their own, reset by the client or not, in
+    any combination —: every stream the client did not reset receives its own answer and the connection is still served
+    (the repaired loop: a 429 that cannot be sent because its stream was reset concerns that stream only). *)
+Theorem reset_stream_is_its_own : forall qs : list h2req, h2_answered true qs = h2_reset_spec qs.
+Proof. exact reset_stream_is_its_own_lemma. Qed.
+
+(** The code before the repair: false.  A reset stream that the limiter answers ended the whole connection: the streams
+    whose handlers were still running, and those not yet accepted, were never answered (replayed on the real code:
+    known-findings.txt). *)
+Theorem reset_limited_stream_v0_refuted : exists qs : list h2req,
+  map hq_reset qs = [false; false; false; false; true; false] /\
+  h2_answered false qs = ([(7, 429)], false) /\
+  h2_answered true qs = ([(1, 200); (3, 200); (5, 200); (7, 429); (11, 429)], true) /\
+  h2_reset_spec qs = ([(1, 200); (3, 200); (5, 200); (7, 429); (11, 429)], true).
+Proof. exact reset_limited_stream_v0_refuted_lemma. Qed.
+
+Example reset_streams_instance :
+  run_rst (XL [XL []; XL []; XL [XN 1; XN 3]; XL [XL [XN 0; XN 200]; XL [XN 0; XN 404]; XL [XN 1; XN 200]; XL [XN 1; XN 200]]])
+  = XL [XL [XL [XN 1; XN 200]; XL [XN 5; XN 429]]; XN 1].
+Proof. vm_compute. reflexivity. Qed.
